@@ -7,7 +7,7 @@ PROPS['C20'] = dict(
     src='props/C20.cpp', variants=['fast', 'asan'], level='exploration',
     rule=('rapidcheck-generated (value, buffer size) and parse strings plus complete strata (every 1-bit/2-bit/low-mask value x sizes 0..32); '
           'non-trivial = a formatting call with a buffer of >=1 byte, or a non-empty parse string; distinct by (kind, value/text, size)'),
-    quick=dict(cases={'fast': 18_000_000, 'asan': 1_800_000}, enum={'fast': 2, 'asan': 2}),
+    quick=dict(cases={'fast': 36_000_000, 'asan': 3_600_000}, enum={'fast': 2, 'asan': 2}),
     thorough=dict(cases={'fast': 200_000_000, 'asan': 20_000_000}, enum={'fast': 2, 'asan': 2}),
     strata=dict(quick=['all 1-bit, 2-bit and low-mask values x buffer sizes 0..32', 'all repeated-hex-digit strings of length 1..16', 'every printable non-hex first character'],
                 thorough=['all 1-bit, 2-bit and low-mask values x buffer sizes 0..32', 'all repeated-hex-digit strings of length 1..16', 'every printable non-hex first character']),
@@ -42,7 +42,7 @@ PROPS['C04'] = dict(
           'converse (cell is among the children of every ancestor), error clauses; cells from the mixture with extra weight on pentagons and pentagon descendants. '
           'Complete strata: all 122 res-0 cells and all pentagons of all 16 res x every depth difference. '
           'non-trivial = depth difference >=1 (or an in-range error-clause argument); distinct by (kind, cell, res, seed)'),
-    quick=dict(cases={'fast': 180_000, 'asan': 24_000}, enum={'fast': 4}),
+    quick=dict(cases={'fast': 360_000, 'asan': 48_000}, enum={'fast': 4}),
     thorough=dict(cases={'fast': 1_500_000, 'asan': 150_000}, enum={'fast': 8}),
     strata=dict(quick=['all res-0 cells x depth 0..6 (full child arrays)', 'all pentagons res 1..15 x depth 0..6 (full) and x every child res (size, centre child, samples)'],
                 thorough=['as quick with depth 0..8']),
@@ -58,7 +58,7 @@ PROPS['C13'] = dict(
     rule=('(parent, childRes, position) triples incl. sub-block boundaries, whole child arrays for depth differences <=6 (7 thorough), (child, every ancestor) pairs, '
           'error clauses; complete stratum: every pentagon parent of every res x every child res (whole array up to depth 5/7, first-level sub-block boundaries beyond). '
           'non-trivial = child res finer than parent res (or an in-range error argument); distinct by the case tuple'),
-    quick=dict(cases={'fast': 400_000, 'asan': 30_000}, enum={'fast': 4}),
+    quick=dict(cases={'fast': 800_000, 'asan': 60_000}, enum={'fast': 4}),
     thorough=dict(cases={'fast': 3_000_000, 'asan': 200_000}, enum={'fast': 8}),
     strata=dict(quick=['12 pentagons x 16 res x every child res: whole array (depth<=5) + sub-block boundaries'], thorough=['same with depth<=6']),
     level_text=('childPosToCell / cellToChildPos compared with the reference enumeration order on digit strings (lexicographic with the deleted digit-1 branch under a pentagon chain), '
@@ -74,7 +74,7 @@ PROPS['C06'] = dict(
           'pentagon families, isolated cells, sub-trees with one deep cell missing, hexagon groups inside pentagon base cells), de-duplicated and presented permuted / sorted / reversed; '
           'sizes up to 2.5e3 (quick) / 1e5 (thorough). Complete stratum: every pentagon of res 0..14 x depth 1..3 (complete, reversed, one missing), every res-0 sub-tree. '
           'non-trivial = some block compacts by >=2 levels or a pentagon family compacts; distinct by the ordered cell list'),
-    quick=dict(cases={'fast': 80_000, 'asan': 12_000}, enum={'fast': 4}),
+    quick=dict(cases={'fast': 160_000, 'asan': 24_000}, enum={'fast': 4}),
     thorough=dict(cases={'fast': 600_000, 'asan': 60_000}, enum={'fast': 8}),
     strata=dict(quick=['12 pentagons x res 0..14 x family depth 1..3 (complete / reversed / one missing)', '122 res-0 sub-trees at res 1..3'],
                 thorough=['as quick with depth 4', 'whole resolutions 1..4 as one shuffled set']),
@@ -92,7 +92,7 @@ PROPS['C03'] = dict(
           'icosahedron edges res<=5 (8), disks around the 20 face centres at all res; per-base-cell enumeration identity (library children vs all digit strings accepted by the documented '
           'predicate; count, xor, sum) for res<=5 (7); getNumCells/getPentagons/getRes0Cells identities for all res. '
           'non-trivial = res>=3 or a cell of a pentagon base cell, or an enumeration identity; distinct by cell / (res, base cell)'),
-    quick=dict(cases={'fast': 9_000_000, 'asan': 900_000}, enum={'fast': 8}),
+    quick=dict(cases={'fast': 18_000_000, 'asan': 1_800_000}, enum={'fast': 8}),
     thorough=dict(cases={'fast': 100_000_000, 'asan': 6_000_000}, enum={'fast': 16}),
     strata=dict(quick=['all cells res 0..4 (round trip)', 'per-base-cell enumeration identity res 0..5', 'k=6 disks of 12 pentagons x 16 res', 'edge bands res 0..5', 'k=3 disks at 20 face centres x 16 res', 'global count identities res 0..15'],
                 thorough=['all cells res 0..6', 'enumeration identity res 0..7', 'k=30 pentagon disks', 'edge bands res 0..8', 'k=8 face-centre disks']),
@@ -110,7 +110,7 @@ PROPS['C02'] = dict(
           'longitude range, arbitrary finite doubles, invalid res / non-finite; complete stratum: all boundary vertices and edge midpoints of every pentagon and pentagon neighbour at all res '
           'x offsets {0, +-1e-3, 1e-6, 1e-9, 1e-12}. non-trivial = the point lies within 1e-3 of the centre distance of an edge, is outside by rounding, or belongs to the '
           'icosahedron/pole/antimeridian/outer-range/face-centre arms, or exercises the second/third clause; distinct by (lat bits, lng bits, res)'),
-    quick=dict(cases={'fast': 3_600_000, 'asan': 300_000}, enum={'fast': 4}),
+    quick=dict(cases={'fast': 7_200_000, 'asan': 600_000}, enum={'fast': 4}),
     thorough=dict(cases={'fast': 100_000_000, 'asan': 5_000_000}, enum={'fast': 4}),
     strata=dict(quick=['vertices + edge midpoints of all pentagons and their neighbours, 16 res, 9 offsets'], thorough=['same']),
     level_text=('containment of the generated point in cellToBoundary(latLngToCell(point)) decided in a gnomonic chart with binary128 arithmetic and the tolerance of the statement '
@@ -127,7 +127,7 @@ PROPS['C05'] = dict(
           'BFS over the geometric graph. Origins from the stress mixture (pentagon disks and icosahedron edges dominant, polar pentagons weighted). Complete strata: every cell of '
           'res 0..2 (k=1), every res-0 origin x k<=12, every res-1 origin x k<=30, sampled res-2 origins x k up to 72 (disks wrapping the globe), every pentagon and pentagon '
           'neighbour of every res x k<=5. non-trivial = the disk contains a pentagon or crosses a base-cell boundary (always for k=1 checks); distinct by (kind, origin, k, partner)'),
-    quick=dict(cases={'fast': 60_000, 'asan': 6_000}, enum={'fast': 8}),
+    quick=dict(cases={'fast': 120_000, 'asan': 12_000}, enum={'fast': 8}),
     thorough=dict(cases={'fast': 1_500_000, 'asan': 100_000}, enum={'fast': 16}),
     strata=dict(quick=['all cells res 0..2: k=1 + areNeighborCells', 'res 0: all origins x k 0..12', 'res 1: all origins x k 0,3,..,30', 'res 2: sampled origins x k in {2,5,9,14,23,37,55,72}', 'all pentagons + neighbours, 16 res, k 0..5'],
                 thorough=['all cells res 0..3 (k=1)', 'res 1: all k 0..30', 'res 2: every 3rd origin of every base cell', 'pentagon neighbourhoods k 0..12']),
@@ -143,7 +143,7 @@ PROPS['C08'] = dict(
     rule=('cells from the stress mixture (icosahedron-edge and pentagon-disk arms dominant) with all their geometric neighbours; complete strata: every cell of res 0..3 (4), k<=2 disks of all '
           'pentagons at all res, all cells along the 30 icosahedron edges for res<=5 (7), whole-resolution area sums res 0..4 (6). '
           'non-trivial = the cell or one of its neighbours is a pentagon or has a distortion vertex (boundary vertex count != 6), or a whole-resolution sum; distinct by cell'),
-    quick=dict(cases={'fast': 225_000, 'asan': 15_000}, enum={'fast': 8}),
+    quick=dict(cases={'fast': 450_000, 'asan': 30_000}, enum={'fast': 8}),
     thorough=dict(cases={'fast': 5_000_000, 'asan': 200_000}, enum={'fast': 16}),
     strata=dict(quick=['all cells res 0..3', 'k=2 disks of 12 pentagons x 16 res', 'icosahedron-edge cells res 1..5', 'area sums res 0..4'],
                 thorough=['all cells res 0..4', 'icosahedron-edge cells res 1..7', 'area sums res 0..6']),
@@ -158,7 +158,7 @@ PROPS['C19'] = dict(
     src='props/C19.cpp', variants=['fast', 'asan'], level='exploration',
     rule=('cells from the icosahedron-edge / pentagon-disk dominated mixture at all 16 res; complete strata: every cell of res 0..3 (5), k<=3 disks of all pentagons at all res, all cells '
           '(with neighbours) along the 30 icosahedron edges for res<=6 (8). non-trivial = the oracle finds the cell interior on >=2 faces; distinct by cell'),
-    quick=dict(cases={'fast': 225_000, 'asan': 15_000}, enum={'fast': 8}),
+    quick=dict(cases={'fast': 450_000, 'asan': 30_000}, enum={'fast': 8}),
     thorough=dict(cases={'fast': 5_000_000, 'asan': 200_000}, enum={'fast': 16}),
     strata=dict(quick=['all cells res 0..3', 'k=3 disks of 12 pentagons x 16 res', 'edge bands res 1..6'], thorough=['all cells res 0..5', 'edge bands res 1..8']),
     level_text=('the reported face set is compared with a binary128 clipping oracle: the boundary polygon is clipped against each face region (nearest-face-centre cells); area share >1e-6 must be reported, '
@@ -173,7 +173,7 @@ PROPS['C10'] = dict(
     rule=('origin cells from the stress mixture with all geometric neighbours, distance-2 cells and a random far cell; 64-bit edge candidates (valid origins x direction 0..7, wrong mode, '
           'damaged origins, pentagon origins with direction 1, bit flips, raw); complete strata: all cells of res 0..3 (4) as origins, all pentagons of all res x 16 modes x 8 direction values, '
           'pentagon neighbourhoods as origins. non-trivial = origin or a neighbour is a pentagon / has a distortion vertex, or a candidate with mode 2; distinct by (kind, index, partner)'),
-    quick=dict(cases={'fast': 300_000, 'asan': 25_000}, enum={'fast': 8}),
+    quick=dict(cases={'fast': 600_000, 'asan': 50_000}, enum={'fast': 8}),
     thorough=dict(cases={'fast': 4_000_000, 'asan': 200_000}, enum={'fast': 16}),
     strata=dict(quick=['all cells res 0..3 as origins', '12 pentagons x 16 res x 16 modes x 8 directions', 'pentagon k=1 disks as origins'], thorough=['all cells res 0..4 as origins']),
     level_text=('encode/decode round trips for every geometric neighbour pair, originToDirectedEdges = exactly those edges, E_NOT_NEIGHBORS elsewhere, isValidDirectedEdge against the documented form in both directions, '
@@ -189,7 +189,7 @@ PROPS['C11'] = dict(
           'through the cell and each neighbour (canonical vs non-canonical), out-of-range vertex numbers; 64-bit candidates (mode, owner damage, bit flips, raw); complete strata: all cells of '
           'res 0..3 (4), k<=2 disks of all pentagons at all res, global 2N-4 / three-times identity for res 0..4 (6). '
           'non-trivial = the cell or a neighbour is a pentagon or has distortion vertices, a mode-4 candidate over a valid owner, or a global identity; distinct by (kind, index)'),
-    quick=dict(cases={'fast': 250_000, 'asan': 20_000}, enum={'fast': 8}),
+    quick=dict(cases={'fast': 500_000, 'asan': 40_000}, enum={'fast': 8}),
     thorough=dict(cases={'fast': 3_000_000, 'asan': 150_000}, enum={'fast': 16}),
     strata=dict(quick=['all cells res 0..3', 'k=2 disks of 12 pentagons x 16 res', '2N-4 identity res 0..4'], thorough=['all cells res 0..4', '2N-4 identity res 0..6']),
     level_text=('topological corners are identified from geometry alone (a boundary vertex lying on two neighbours is a corner, on one a distortion vertex); slot i must sit on corner i (1e-12 rad), the three cells at a corner must produce '
@@ -205,7 +205,7 @@ PROPS['C09'] = dict(
           'property where the ball holds no pentagon; resolution mismatches; (origin, i, j) probes incl. +-INT32_MAX extremes under UBSan; complete strata: every ordered pair of res 0 and res 1 '
           '(res 2: every 7th origin quick, all origins thorough), balls around the k<=2 disks of all pentagons at all res. '
           'non-trivial = the ball contains a pentagon or crosses a base-cell seam, a successful IJ probe, a mismatch pair, a whole-globe origin; distinct by the case tuple'),
-    quick=dict(cases={'fast': 200_000, 'asan': 15_000}, enum={'fast': 8}),
+    quick=dict(cases={'fast': 400_000, 'asan': 30_000}, enum={'fast': 8}),
     thorough=dict(cases={'fast': 1_500_000, 'asan': 80_000}, enum={'fast': 16}),
     strata=dict(quick=['all ordered pairs res 0, res 1; res 2 from every 7th origin', 'res 3: every cell within 9 steps of each pentagon as origin x every cell within 14 steps of it', 'radius-6 balls around k<=2 disks of 12 pentagons x 16 res'], thorough=['all ordered pairs res 0..2', 'radius-16 balls around pentagon disks']),
     level_text=('every successful gridDistance is compared with the breadth-first distance on a neighbour graph derived from geometry (whole globe at res 0-2, balls of radius <=20/30 elsewhere); symmetry, 0 for a=b, success and 1 for all neighbours; '
@@ -220,7 +220,7 @@ PROPS['C14'] = dict(
     rule=('(start, end) pairs: every cell of a reference BFS ball (radius <=10 quick / 20 thorough) around origins from the stress mixture as end (exact distance known), both directions for a=b and neighbours; '
           'explicit pairs up to ~600 cells apart at fine resolutions (long paths); complete strata: every origin of res 0-1 (0-2) x radius 4 (8), k<=2 disks of all pentagons at all res x radius 4 (8). '
           'non-trivial = the ball contains a pentagon or crosses a base-cell seam, or a path of >=100 cells; distinct by the case tuple'),
-    quick=dict(cases={'fast': 80_000, 'asan': 8_000}, enum={'fast': 8}),
+    quick=dict(cases={'fast': 160_000, 'asan': 16_000}, enum={'fast': 8}),
     thorough=dict(cases={'fast': 800_000, 'asan': 50_000}, enum={'fast': 16}),
     strata=dict(quick=['all origins res 0..1 x radius-4 balls', 'pentagon k<=2 disks x 16 res x radius-4 balls'], thorough=['all origins res 0..2 x radius-8 balls', 'pentagon disks x radius-8 balls']),
     level_text=('validity predicate over the path: exactly gridPathCellsSize = gridDistance+1 cells in an exactly sized guarded buffer, first = start, last = end, every cell valid and a geometric neighbour of its predecessor, '
@@ -236,7 +236,7 @@ PROPS['C07'] = dict(
           'shape arms (convex-ish, concave star, needle, smaller than a cell, large, triangle/quad) drawn independently of location arms (uniform, pentagon, antimeridian, high latitude, icosahedron edge, southern), '
           'all 16 res, up to ~400 (quick) / 8e3 (thorough) cells. Stratum: boundaries of all res 0-1 cells and of all pentagons res<=6 (12) filled one and two levels finer. '
           'non-trivial = at least one candidate centre decided inside and one decided outside; distinct by polygon + res'),
-    quick=dict(cases={'fast': 52_000, 'asan': 5_200}, enum={'fast': 4}),
+    quick=dict(cases={'fast': 104_000, 'asan': 10_400}, enum={'fast': 4}),
     thorough=dict(cases={'fast': 300_000, 'asan': 20_000}, enum={'fast': 8}),
     strata=dict(quick=['cell boundaries of all res 0..1 cells and pentagons res 2..6 as polygons, filled at +1/+2', 'pruning boundary: ancestors around the 20 face centres x res 0..14 x depth 1..3 x N/S/E/W-most descendant, tiny polygon around it'], thorough=['pentagons up to res 12']),
     level_text=('both fill algorithms are compared cell by cell with an independent binary128 crossing-number test of every candidate centre (candidates enumerated independently of the fill; centres within 1e-11 rad of an edge are undecided), '
@@ -267,7 +267,7 @@ PROPS['C16'] = dict(
           'nested rings plus extra components, strips; origins uniform / at pentagons / on the antimeridian / on icosahedron edges; all 16 res, presented in a generated order; complete strata: k=1,2 disks and k=2 rings '
           'around every cell of res 0..2 (3) and k<=3 around every pentagon of res 3..15. Not generated: sets reaching within 0.27 rad of a pole. '
           'non-trivial = the outline has a hole or more than one component; distinct by the cell set'),
-    quick=dict(cases={'fast': 60_000, 'asan': 6_000}, enum={'fast': 4}),
+    quick=dict(cases={'fast': 120_000, 'asan': 12_000}, enum={'fast': 4}),
     thorough=dict(cases={'fast': 600_000, 'asan': 40_000}, enum={'fast': 8}),
     strata=dict(quick=['k=1,2 disks and k=2 rings around all cells res 0..2', 'k<=3 disks/rings around 12 pentagons x res 3..15'], thorough=['all cells res 0..3']),
     level_text=('polygon count = number of edge-connected components (union-find over geometric adjacency), counter-clockwise outer loops and clockwise holes by signed binary128 spherical area, every loop >=3 vertices, every vertex a boundary vertex of an input cell, '
@@ -283,7 +283,7 @@ PROPS['C17'] = dict(
           'areNeighborCells (pairs around pentagons, other resolutions), polygonToCells, polygonToCellsExperimental (4 modes) and maxPolygonToCellsSizeExperimental (polygons with 0-3 holes near/away from pentagons, bad flags, empty loop); '
           'for each input the number N of allocations is measured and EVERY allocation index 1..N is failed, once alone and once together with all later ones; stratum: all pentagons and their neighbours at all res. '
           'non-trivial = N >= 2 or an error-path input; distinct by (function, input)'),
-    quick=dict(cases={'fast': 120_000, 'asan': 12_000}, enum={'fast': 4}),
+    quick=dict(cases={'fast': 240_000, 'asan': 24_000}, enum={'fast': 4}),
     thorough=dict(cases={'fast': 1_500_000, 'asan': 100_000}, enum={'fast': 8}),
     strata=dict(quick=['12 pentagons + neighbours x 16 res: gridDisk/gridDiskDistances k=1..3, areNeighborCells over the k=1 disk, parent-boundary polygon through the three polygon functions x 4 modes'], thorough=['k=1..5']),
     level_text=('fault enumeration: complete over the allocation index for every generated input (every allocation the call makes is failed in turn, single and sticky); after each run the model allocator must hold no live block and have seen no invalid free, '
